@@ -223,6 +223,13 @@ fn iso_data(p: &P, kind: IsoKind) -> (Array2<f64>, Array1<f64>, Array1<f32>, Arr
         IsoKind::ConstantX => xs.iter_mut().for_each(|v| *v = 100.0),
         _ => {}
     }
+    // both zeros: they compare equal but have different bit patterns
+    if n >= 8 && kind != IsoKind::ConstantX && kind != IsoKind::Sorted {
+        xs[1] = 0.0;
+        xs[n / 2] = -0.0;
+        xs[n - 2] = 0.0;
+        xs[3] = -0.0;
+    }
     let slope = if kind == IsoKind::Decreasing { -0.3 } else { 0.3 };
     let y = Array1::from_iter(xs.iter().map(|&v| ((slope * (v - 100.0) + 2.0 * r.normal()) * 4.0).round() / 4.0));
     let w = Array1::from_iter((0..n).map(|_| *r.pick(&[0.5f32, 1.0, 2.0, 1.0])));
@@ -1470,6 +1477,42 @@ fn register_pls(r: &mut Registry) {
             Ok(_) => f.one("check", true),
             Err(e) => f.err("check", &e),
         }
+        f
+    });
+    r.scenario("pls_orthogonal_start", K, Kind::Claim, false, |p| {
+        // balanced two-level design: the first response column is a replicate indicator that is
+        // exactly orthogonal to both factors; the power method's start vector is degenerate
+        let reps = 2 + (p.seed % 3) as usize;
+        let n = 8 * reps;
+        let x = Array2::from_shape_fn((n, 2), |(i, j)| if (i >> j) & 1 == 1 { 1.0 } else { -1.0 });
+        let y = Array2::from_shape_fn((n, 3), |(i, j)| match j {
+            0 => {
+                if (i >> 2) & 1 == 1 {
+                    1.0
+                } else {
+                    -1.0
+                }
+            }
+            1 => 2.0 * x[[i, 0]] + 0.5 * x[[i, 1]] + 0.25 * (((i * 7) % 5) as f64 - 2.0),
+            _ => -x[[i, 0]] + 1.5 * x[[i, 1]] + 0.125 * (((i * 3) % 7) as f64 - 3.0),
+        });
+        let mut f = Fingerprint::new();
+        let ds = Dataset::new(x.clone(), y);
+        macro_rules! one {
+            ($name:expr, $res:expr) => {
+                match $res {
+                    Ok(m) => {
+                        f.arr(&format!("{}_weights_x", $name), m.weights().0);
+                        f.arr(&format!("{}_coefficients", $name), m.coefficients());
+                        f.arr(&format!("{}_predict", $name), &m.predict(&x));
+                    }
+                    Err(e) => f.err($name, &e),
+                }
+            };
+        }
+        one!("reg_nipals", PlsRegression::<f64>::params(2).algorithm(Algorithm::Nipals).fit(&ds));
+        one!("can_nipals", PlsCanonical::<f64>::params(2).algorithm(Algorithm::Nipals).fit(&ds));
+        one!("reg_svd", PlsRegression::<f64>::params(2).algorithm(Algorithm::Svd).fit(&ds));
         f
     });
     macro_rules! model {
